@@ -526,7 +526,8 @@ def run_pair(cspec, sspec, cred, alpn=None, server_dh_bits=None):
     """returns dict: outcome 'complete' | 'fail' | 'invalid:<side>', details"""
     from harness import lab
     try:
-        cset = mk_settings(cspec).validate()
+        craw = mk_settings(cspec)
+        cset = craw.validate()
     except ValueError as e:
         return {"outcome": "invalid:client", "why": str(e)[:120]}
     try:
@@ -542,8 +543,11 @@ def run_pair(cspec, sspec, cred, alpn=None, server_dh_bits=None):
     if alpn:
         ckw["alpn"] = [bytearray(x.encode("ascii")) for x in alpn[0]]
         skw["alpn"] = [bytearray(x.encode("ascii")) for x in alpn[1]]
+    from .c19_use import Watch
+    watch = Watch({"client": craw, "client.validated": cset, "server": sraw, "server.validated": sset})
+    ref = {"cset": settings_dict(cset), "sset": settings_dict(sset)}
     L = lab.handshake(cset, sset, cred=cred, client_kw=ckw, server_kw=skw)
-    res = {"cset": settings_dict(cset), "sset": settings_dict(sset),
+    res = {"cset": ref["cset"], "sset": ref["sset"], "watch": watch,
            "client": L.client.state, "server": L.server.state,
            "client_exc": lab.exc_class(L.client.exc), "server_exc": lab.exc_class(L.server.exc)}
     if L.client.state == "done" and L.server.state == "done":
@@ -562,6 +566,7 @@ def run_pair(cspec, sspec, cred, alpn=None, server_dh_bits=None):
         res["server_suite"] = L.server.conn.session.cipherSuite
     else:
         res["outcome"] = "fail"
+    res["settings_mutated"] = res.pop("watch").changed()
     return res
 
 
@@ -785,15 +790,20 @@ def run_psk_pair(spec):
             sset.ticketCipher = tc
             sset.ticketKeys = [bytearray(range(16 if tc.startswith("aes128") else 32))]
             sset.ticket_count = spec.get("ticket_count", 1)
+        craw, sraw = cset, sset
         cset = cset.validate()
         sset = sset.validate()
     except ValueError as e:
         return {"outcome": "invalid", "why": str(e)[:120]}
+    from .c19_use import Watch
+    watch = Watch({"client": craw, "client.validated": cset, "server": sraw, "server.validated": sset})
     res = {"cset": settings_dict(cset), "sset": settings_dict(sset)}
+    res["settings_mutated"] = []
     session = None
     if spec["kind"] == "ticket":
         # first connection: full handshake, then traffic so that the client reads its NewSessionTicket
         L0 = lab.handshake(cset, sset, cred=spec["cred"])
+        res["settings_mutated"] = watch.changed()
         if not (L0.client.state == "done" and L0.server.state == "done" and _exchange(L0)):
             res.update(outcome="first-connection-failed", client_exc=lab.exc_class(L0.client.exc),
                        server_exc=lab.exc_class(L0.server.exc))
@@ -829,6 +839,7 @@ def run_psk_pair(spec):
         res["server_resumed"] = bool(L.server.conn.resumed)
     else:
         res["outcome"] = "fail"
+    res["settings_mutated"] = sorted(set(res["settings_mutated"] + watch.changed()))
     return res
 
 
